@@ -47,7 +47,7 @@ ANCHORS = ['pfhedge.nn.functional:d1',
            'pfhedge.nn.modules.hedger:Hedger.compute_hedge']
 PYTEST_WORKLOAD = True  # thorough tier also runs /repo/tests with these passive monitors attached (DESIGN.md 2.7)
 DECIDING = ["nan_watch", "limit.price", "limit.delta", "reject.negative", "hedger.finite"]
-REQUIRED_BRANCHES = ["hedger.zero_volatility_underlier", "reject.other_argument_all_zero", "t=0", "sigma=0", "both=0", "tiny", "at_strike", "hedger.bs", "hedger.ww"]
+REQUIRED_BRANCHES = ["reject.python_scalar_argument", "hedger.zero_volatility_underlier", "reject.other_argument_all_zero", "t=0", "sigma=0", "both=0", "tiny", "at_strike", "hedger.bs", "hedger.ww"]
 
 _CTX = None
 PRICE_DELTA = ["bs_european_price", "bs_european_delta", "bs_european_binary_price", "bs_european_binary_delta",
@@ -242,6 +242,16 @@ def drv_reject(ctx, k, rng):
         tt[j] = bad
     else:
         v[j] = bad
+    if rng.random() < 0.3:
+        # the offending argument as a python number (as in the documentation's examples) instead of a tensor element
+        # (python numbers are converted in the default dtype, float32: only values that stay negative there are admissible probes)
+        badf = float(pick(rng, [-1e-30, -1e-6, -0.1, -5.0]))
+        if which == "t":
+            tt = badf if rng.random() < 0.7 else -1
+        else:
+            v = badf if rng.random() < 0.7 else -1
+        bad = badf
+        ctx.branch("reject.python_scalar_argument")
     calls = {
         "d1": lambda: F.d1(s, tt, v), "d2": lambda: F.d2(s, tt, v),
         "bs_european_price": lambda: F.bs_european_price(s, tt, v), "bs_european_delta": lambda: F.bs_european_delta(s, tt, v),
